@@ -204,7 +204,7 @@ pub(crate) fn c01_case(rep: &mut Report, m: &Model, seed: u64, idx: u64) {
     // path E: the message built through IppAttributes::add alone (shuffled, with replaced decoys), when additions can produce it
     if idx % 2 == 1 && mirror::addable(m) {
         match catch(|| {
-            let mut b = mirror::to_ipp_via_add(m, seed ^ idx).to_bytes().to_vec();
+            let mut b = if idx % 4 == 3 { mirror::to_ipp_mixed(m, seed ^ idx) } else { mirror::to_ipp_via_add(m, seed ^ idx) }.to_bytes().to_vec();
             b.extend_from_slice(&m.data);
             b
         }) {
@@ -214,6 +214,47 @@ pub(crate) fn c01_case(rep: &mut Report, m: &Model, seed: u64, idx: u64) {
                 check(rep, "built-by-additions", o);
             }
             Err(p) => rep.violation(format!("C01:encode-panic:{}", panic_site(&p)), format!("case {idx} (built by additions): {p}"), replay.clone()),
+        }
+    }
+    // path F: a clone of a message's attribute list is changed; each of the two objects must encode its own content
+    if idx % 5 == 2 {
+        if let Some((tag, name)) = m.groups.last().and_then(|g| g.attrs.keys().next().map(|k| (g.tag, k.clone()))) {
+            let o = catch(|| {
+                let r1 = mirror::to_ipp(m);
+                let warm = r1.to_bytes();
+                std::hint::black_box(warm.len());
+                let mut r2 = IppRequestResponse::new_response(IppVersion(m.version), ipp::model::StatusCode::SuccessfulOk, m.id);
+                r2.header_mut().operation_or_status = m.code;
+                *r2.attributes_mut() = r1.attributes().clone();
+                r2.attributes_mut().add(mirror::delim(tag), IppAttribute::new(&name, ipp::value::IppValue::Integer(31337)));
+                let b2 = r2.to_bytes().to_vec();
+                let b1 = r1.to_bytes().to_vec();
+                (b1, b2)
+            });
+            match o {
+                Ok((b1, b2)) => {
+                    rep.count("runs_clone-then-modify", 1);
+                    let mut expect2 = m.clone();
+                    expect2.data.clear();
+                    let gi = expect2.groups.iter().position(|g| g.tag == tag).unwrap();
+                    expect2.groups[gi].attrs.insert(name.clone(), ippref::MVal::Integer(31337));
+                    let mut expect1 = m.clone();
+                    expect1.data.clear();
+                    for (what, b, want) in [("original after its clone was changed", b1, expect1.normalize()), ("changed clone", b2, expect2.normalize())] {
+                        rep.eval();
+                        let (o, _) = sync_parse(&Arc::new(b), Plan::full());
+                        match o {
+                            Outcome::Ok(got) => {
+                                if let Some(d) = mirror::diff(&want, &got.normalize()) {
+                                    rep.violation("C01:mismatch:clone-then-modify", format!("case {idx}: {what}: {d}"), replay.clone());
+                                }
+                            }
+                            other => rep.violation(format!("C01:parse-{}", other.class()), format!("case {idx} path clone-then-modify ({what}): {}", other.short()), replay.clone()),
+                        }
+                    }
+                }
+                Err(p) => rep.violation(format!("C01:encode-panic:{}", panic_site(&p)), format!("case {idx} (clone then modify): {p}"), replay.clone()),
+            }
         }
     }
     // path C/D: serialisation must not depend on the object's history: serialise once, then change the header
@@ -356,7 +397,13 @@ pub(crate) fn c03_case(rep: &mut Report, m: &Model, seed: u64, idx: u64, trials:
             rep.count("instances_built_by_additions", 1);
         }
         let enc = catch(|| {
-            let r = if via_add { mirror::to_ipp_via_add(m, seed ^ idx.wrapping_mul(31) ^ t as u64) } else { mirror::to_ipp(m) };
+            let r = if via_add && t % 4 == 3 {
+                mirror::to_ipp_mixed(m, seed ^ idx.wrapping_mul(31) ^ t as u64)
+            } else if via_add {
+                mirror::to_ipp_via_add(m, seed ^ idx.wrapping_mul(31) ^ t as u64)
+            } else {
+                mirror::to_ipp(m)
+            };
             // the iteration order the in-memory maps happen to have in this instance (the "schedule" of this property)
             let mem: Vec<u8> = r.attributes().groups().iter().flat_map(|g| g.attributes().keys().flat_map(|k| k.bytes().chain([0u8])).chain([1u8])).collect();
             (r.to_bytes().to_vec(), hash64(&mem))
